@@ -155,7 +155,10 @@ func ConfigFor(prop, tier string) Config {
 		c.MaxStates = 3000000
 	}
 	if prop == "C18" {
-		c.GC, c.Poison, c.Warm, c.Drain, c.RawVariants, c.Churn = true, false, false, false, 1, 0
+		c.GC, c.Poison, c.Warm, c.Drain, c.RawVariants, c.Churn = true, false, false, false, 2, 0
+		if tier == "thorough" {
+			c.RawVariants = 4
+		}
 	}
 	return c
 }
